@@ -269,7 +269,7 @@ def method_table(x):
             else:
                 out.append((n, "call", ()))
     # further read-only protocols of the same object (not public names, but how other code reads a sequence)
-    for r in ("@array", "@bytes", "@list", "@contains", "@eq-rebuilt", "@hash-stable"):
+    for r in ("@array", "@bytes", "@list", "@contains", "@eq-rebuilt", "@hash-stable", "@json-roundtrip", "@copy-sliced"):
         out.append((r, "reading", ()))
     return out
 
@@ -294,6 +294,13 @@ def gen_methods(tier, seed):
                 for ops in views:
                     for (n, kind, args) in method_table(x0):
                         yield [new, mt, parent, ops, n, kind, list(args)]
+                # the same object built with an annotation offset: serialisation, copies and coordinates must still read alike
+                if new != "coll" and parent in ("AGCTR", "UG-CAY"):
+                    for off in (3, 7):
+                        for ops in views:
+                            for (n, kind, args) in method_table(x0):
+                                if kind == "reading" or n in ("copy", "deepcopy", "to_json", "to_rich_dict", "parent_coordinates", "to_rna", "to_dna", "rc", "complement"):
+                                    yield [new, mt, parent, ops, n, kind, list(args), off]
 
 
 def _invoke(obj, n, kind, args, other):
@@ -310,6 +317,12 @@ def _invoke(obj, n, kind, args, other):
             return obj == type(obj)(str(obj), name=obj.name) if not hasattr(obj, "_seq") else str(obj) == str(obj[:])
         if n == "@hash-stable":
             return hash(obj) == hash(obj)
+        if n == "@json-roundtrip":       # what the serialised form of this object reads as
+            from cogent3.util.deserialise import deserialise_object
+            return str(deserialise_object(obj.to_json()))
+        if n == "@copy-sliced":
+            c = obj.copy(sliced=True) if "sliced" in obj.copy.__code__.co_varnames else obj.copy()
+            return (str(c), str(obj))
     if kind == "prop":
         return getattr(obj, n)
     if kind == "other":
@@ -320,8 +333,9 @@ def _invoke(obj, n, kind, args, other):
 
 
 def contract_methods(case):
-    new, mt, parent, ops, n, kind, args = case
-    x = make(parent, mt, new)
+    new, mt, parent, ops, n, kind, args = case[:7]
+    off = case[7] if len(case) > 7 else 0
+    x = make(parent, mt, new, off)
     try:
         for op in ops:
             x = real_apply(x, op)
@@ -343,7 +357,7 @@ def contract_methods(case):
     b = run(y, other_y)
     if a != b:
         viewkind = "+".join(o[0] + ("-" if o[0] == "s" and o[3] is not None and o[3] < 0 else "") for o in ops)
-        return ("fail", f"method/{impl(new)}/{n}/{viewkind}",
+        return ("fail", f"method/{impl(new)}{'/offset' if off else ''}/{n}/{viewkind}",
                 f"{case}: on view {s!r} -> {str(a)[:200]}; on rebuilt sequence -> {str(b)[:200]}")
     return ("ok", a[0] == "ret")
 
